@@ -90,6 +90,21 @@ CHECKS = {
    text="The real TcpStream::from_stream + BufDnsStreamHandle over a scripted socket polled by hand: at every poll_read Pending / every n in 1..=min(buf,remaining) / EOF at every byte position / I/O error; at every poll_write[_vectored] Pending / every n in 1..=offered across both slices / error; flush Ok/Pending/error; messages handed over at every driver point; 1..3 messages of lengths {1,2,3,255} (quick) / {1,2,3,255,256,300} (thorough) plus zero-length frames; read, write, joint, TcpClientStream and TimeoutStream grids: 711 k states / 19 M transitions quick, 330 M transitions thorough, all to fixpoint; cross-run of 29 M / 72 M unmatched runs reaches exactly the BFS states. Oracle: yielded items are exactly the framed messages in order; EOF at a boundary ends cleanly, inside a prefix or body errors; accepted bytes are always a prefix of len16(m1) m1 len16(m2) m2 ...; every fair continuation completes.",
    note="Trusted: vref::frame; Ok(0) writes excluded (outside the statement); waker registration / lost wake-ups are not judged (the driver always re-polls); messages >65,535 not covered.",
    design="6/C17, 11"),
+ "C08": dict(level="exploration", engine="E-ENUM",
+   technique="exhaustive enumeration of all zones over the small name universe (signed by the real server code) x queries x claims x EVERY non-empty subset of the zone's genuine NSEC records through the real verify_nsec, judged by ground truth in the zone (soundness) and literal RFC 4035/6840 entailment; the server's own proofs replayed end to end through the real validator (completeness); decision-level cases bound to the real path by end-to-end replays",
+   text="3,307 single-zone and 114 parent/child worlds (d=2, K<=2 over 11 node kinds; thorough larger) x 41 query names x {A,TXT,DS,NS,CNAME} x claims {NXDOMAIN, NODATA, expansion of each authoritative wildcard RRset} x soa {each apex, absent} x every non-empty subset of the genuine NSEC chain: 24.5 M (quick) / 458 M (thorough) verify_nsec calls (hook wrapper). Soundness: Secure => the claim is true in the published zone (vref::denial::truth) and the subset is the required proof; completeness: the real server's DO=1 negative / wildcard answer validates Secure through DnssecDnsHandle; binding: every Secure-but-false case and a 1/64 slice is rebuilt from the genuine signed records and replayed through the real DnssecDnsHandle (0.7 M replays, verdicts must agree).",
+   note="Trusted: vref::zone / vref::denial (self-tested on RFC 4035 app. A/B, RFC 4592, RFC 6840 4.1 counter-examples; 'subset proves claim => claim true' is asserted as a reference-consistency check, exit 2). Zones with >3 non-apex owners and DNAME not covered.",
+   design="6/C08, 11"),
+ "C09": dict(level="exploration", engine="E-ENUM",
+   technique="as C08 for NSEC3: every subset (size <=3 for the larger zones) of the genuine NSEC3 records of zones signed by the real server code under two parameter sets with/without opt-out, through the real verify_nsec3, plus parameter mixtures, re-owned records and iteration limits as configuration, judged by ground truth / RFC 5155 section 8 entailment and replayed end to end",
+   text="1,963 zones -> 2.6 k signed worlds ((0,-) without opt-out; (1,ab) with opt-out where an insecure delegation exists; thorough all four) x queries x claims {NXDOMAIN, NODATA, wildcard expansion, opt-out DS NODATA} x every subset of the NSEC3 chain: 16.8 M (quick) / 285 M (thorough) verify_nsec3 calls; mixtures of records signed under different iterations / salts and records re-owned under another zone must never be Secure; iterations 0..3 x (soft,hard) limits {(1,2),(0,0),(2,2)} (above soft never Secure, above hard Bogus), also end to end; completeness of the server's own proofs through the real validator.",
+   note="Trusted: vref::denial (RFC 5155 app. A hash vectors and app. B examples as self-tests). Worlds whose real NSEC3 chain differs from RFC 5155 7.1 (a listed server defect) are skipped for soundness. Hash collisions, iterations > 3 not covered.",
+   design="6/C09, 11"),
+ "C10": dict(level="exploration", engine="E-ENUM",
+   technique="exhaustive enumeration of all zones over the small name universe x all query names x 9 query types as wire queries through the real Catalog and in-memory store (unsigned, NSEC-signed, NSEC3-signed with DO), compared with an RFC 1034 4.3.2 / RFC 4592 reference lookup on exactly what the statement fixes",
+   text="6,709 zones (d=2, K<=2, 11 node kinds: A, TXT, A+TXT, MX, CNAME to 4 targets, NS with/without glue, NS+DS; ENTs, leftmost and interior wildcards, names below cuts arise from the grammar) + 30 CNAME chain/loop zones x 41+ query names x {A,AAAA,MX,NS,CNAME,SOA,DS,TXT,ANY} x {unsigned DO=0, NSEC DO=1, NSEC3 DO=1}: 7.4 M (quick) / 141 M (thorough) wire queries. Oracle: rcode; answer RR set along the in-zone CNAME chain; referral at the closest enclosing cut with its NS set and no data from at/below a cut; wildcard synthesis from the closest encloser only; NODATA vs NXDOMAIN with SOA; with DO: an RRSIG for every authoritative RRset and an NSEC/NSEC3 on negative and wildcard answers.",
+   note="Trusted: vref::zone (self-tested on RFC 4592 2.2.1 / 3.3.1). AA, additional section, ANY contents, NS/ANY at the cut itself are observations. Known-finding keys carry `hw=ok|differs` (whether the response matches what the known bottom-up wildcard rule predicts) so that a different wildcard bug surfaces as hw=differs.",
+   design="6/C10, 11"),
 }
 
 NOT_BUILT_REASON = "check not built yet at this commit (design in DESIGN.md section 6); not claimed until its quick tier runs clean"
